@@ -41,15 +41,10 @@ LOOP_TABLE = {
         'false to true, and nothing in the loop resets a selected flag; at most |candidates| productive passes',
         '`loop { best_move }`: strictly decreasing potential — a move is applied only when boundary_delta < 0, the '
         'boundary-facet count is a non-negative integer, and the loop breaks when no improving move exists'],
-    'core::delaunay_triangulation::select_balanced_simplex_indices': [
-        '`while selected.len() < D + 1`: each iteration either pushes one index onto `selected` or breaks'],
     'core::traits::facet_cache::FacetCacheProvider::try_get_or_build_facet_cache': [
         'compare-and-retry on the generation counter: repeats only while another holder of the shared counter keeps '
         'bumping it between the two loads (needs continuous concurrent mutation of a clone); single-threaded it runs '
         'at most twice'],
-    'geometry::util::point_generation::generate_random_points_in_ball_with_rng': [
-        'rejection sampling: terminates with probability 1 (acceptance probability = ball/cube volume ratio > 0); a '
-        'point-generation utility outside the triangulation API'],
 }
 
 # ---------------------------------------------------------------- REC table
